@@ -190,3 +190,32 @@ def run(ctx):
                 R.ok('d', 'R2', 'HTTP route: register_single_signature only for an authenticated signature', '', rt.loc())
             else:
                 R.violation('d', 'R2', 'HTTP route: register_single_signature only for an authenticated signature', 'route:authenticated', '', rt.loc())
+
+    # DMQ consumer: each signature stays paired with the sender it was received from
+    dq = ctx.try_fn('d', '<mithril_aggregator::services::signature_consumer::dmq::SignatureConsumerDmq as mithril_aggregator::services::signature_consumer::interface::SignatureConsumer>::get_signatures')
+    if dq is not None:
+        news = []
+        rep = []
+        for g in dq.family():
+            for c in g.body.calls():
+                if any(glob_match('mithril_common::entities::single_signature::SingleSignature::new', n) for n in c.names()):
+                    news.append((g, c))
+                if any(glob_match('*::Iterator::zip', n) or glob_match('*::Iterator::unzip', n) or glob_match('*itertools*::zip*', n) or glob_match('*::Iterator::nth', n)
+                       for n in c.names()):
+                    rep.append('%s:%d' % (fn_short(c.best()), c.line))
+        inst = 'DMQ consumer: SingleSignature::new(sender, signature) pairs values of the same received element (no positional re-pairing)'
+        problems = []
+        if not news:
+            problems.append('no SingleSignature::new site')
+        for g, c in news:
+            o_p = fn_origins(g, c.args[0], 'adapters')
+            o_s = fn_origins(g, c.args[1], 'adapters')
+            # both come from the closure's own element
+            if not (has(o_p, 'clarg#2*') and has(o_s, 'clarg#2*')) and not (has(o_p, 'call:*::next') and has(o_s, 'call:*::next')):
+                problems.append('sender / signature do not come from the same iteration element')
+        if rep:
+            problems.append('the batch is split and re-paired by position (%s): dropping one element shifts every later sender' % rep[:3])
+        if problems:
+            R.violation('d', 'R5', inst, 'dmq:sender-pairing', '; '.join(problems), dq.loc())
+        else:
+            R.ok('d', 'R5', inst, '', dq.loc())
